@@ -170,6 +170,12 @@ def Record.render (C : Ctx) (r : Record) : Except PyErr Text :=
 /-- `bool(scheme)`: a scheme defines `__len__` -/
 def Scheme.truthy (s : Scheme) : Bool := s.size > 0
 
+/-- `str(twin) != str(self)` on renderings (a failing rendering differs from everything) -/
+def exceptTextEq (a b : Except PyErr Text) : Bool :=
+  match a, b with
+  | .ok x, .ok y => x == y
+  | _, _ => false
+
 /-- scheme part of `MafColumnRecord.validate` -/
 def Column.schemeErrors (C : Ctx) (col : Column) (scheme : Option Scheme) (line : Option Nat) :
     List VErr :=
@@ -182,6 +188,13 @@ def Column.schemeErrors (C : Ctx) (col : Column) (scheme : Option Scheme) (line 
         [{ tpe := "RECORD_COLUMN_OUT_OF_ORDER", line := line }]
       else if !isSubclass C col.cls sc then
         [{ tpe := "RECORD_COLUMN_WRONG_FORMAT", line := line }]
+      else if col.cls ≠ sc ∧ sc ≠ "MafColumnRecord" ∧ !col.valueInvalid C then
+        -- a column of a proper sub-class: its value and text must also be what the
+        -- scheme's own class allows (`twin = scheme_class(key, value, index)`)
+        let twin : Column := { col with cls := sc }
+        if twin.valueInvalid C ∨ !(exceptTextEq (twin.render C) (col.render C)) then
+          [{ tpe := "RECORD_COLUMN_WRONG_FORMAT", line := line }]
+        else []
       else []
     | _, _ => [{ tpe := "SCHEME_MISMATCHING_COLUMN_NAMES", line := line }]
 
@@ -190,18 +203,33 @@ def Column.validate (C : Ctx) (col : Column) (scheme : Option Scheme) (line : Op
   (if col.valueInvalid C then [{ tpe := "RECORD_COLUMN_WRONG_FORMAT", line := line }] else [])
     ++ col.schemeErrors C scheme line
 
-/-- the internal self-consistency assertions of `MafRecord.validate` -/
-def Record.assertionsHold (r : Record) : Except PyErr Bool :=
-  -- `sorted(dict.values(), key=lambda r: r.column_index)` fails on a `None` index
-  if r.dict.any (fun p => p.2.col.index.isNone) then .error .type
-  else
-    let idx (c : RCol) : Int := c.col.index.getD 0
-    let sorted := (r.dict.map (·.2)).mergeSort (fun a b => idx a ≤ idx b)
-    .ok (r.dict.length = r.slots.length
-      && (sorted.map (·.oid)) == (r.slots.filterMap (·.map (·.oid)))
-      && (r.slots.zipIdx.all (fun (p : Option RCol × Nat) => match p.1 with
-            | some c => c.col.index == some (p.2 : Int)
-            | none => true)))
+/-- the internal self-consistency checks of `MafRecord.validate` (columns can be
+    changed behind the record's back): the name map and the slot list hold the very
+    same column objects, and every column reports the index it is stored at -/
+def Record.syncErrors (r : Record) : List VErr :=
+  let inSync := r.dict.length = r.slots.length &&
+    r.slots.all (fun s => match s with
+      | some c => (match tdictGet r.dict c.col.key with
+                   | some d => d.oid == c.oid
+                   | none => false)
+      | none => true)
+  (if inSync then [] else [{ tpe := "RECORD_OUT_OF_SYNC", line := r.line }]) ++
+  r.slots.zipIdx.filterMap (fun (p : Option RCol × Nat) => match p.1 with
+    | some c => if c.col.index == some (p.2 : Int) then none
+                else some { tpe := "RECORD_COLUMN_INDEX_OUT_OF_SYNC", line := r.line }
+    | none => none)
+
+def hasFieldSep (t : Text) : Bool := t.any (fun c => c = '\t' || c = '\n' || c = '\r')
+
+/-- errors of one stored column in `record.validate`: the column's own errors and,
+    when validating against a scheme, the framing check on the text of a valid column -/
+def Record.columnErrors (C : Ctx) (r : Record) (scheme : Option Scheme) (c : RCol) : List VErr :=
+  let errs := c.col.validate C scheme none
+  if (scheme.filter Scheme.truthy).isSome && errs.isEmpty then
+    match c.col.render C with
+    | .ok t => if hasFieldSep t then [{ tpe := "RECORD_COLUMN_WRONG_FORMAT", line := r.line }] else []
+    | .error _ => []      -- rendering a valid column does not fail (see the per-type lemmas)
+  else errs
 
 /-- `record.validate(validation_stringency, reset_errors, scheme)`.
     Returns the updated record (errors), the log and the outcome. -/
@@ -215,14 +243,11 @@ def Record.validate (C : Ctx) (r : Record) (mode : Option Mode) (reset : Bool)
     | none => []
   let e2 : List VErr := r.slots.flatMap (fun s => match s with
     | none => [{ tpe := "RECORD_COLUMN_WITH_NO_VALUE", line := r.line }]
-    | some c => c.col.validate C scheme none)
-  let r' := { r with errors := errs0 ++ e1 ++ e2 }
+    | some c => r.columnErrors C scheme c)
   let foundNone := r.slots.any (·.isNone)
-  if foundNone then (r', processErrors m r'.errors)
-  else match r.assertionsHold with
-    | .error e => (r', .error e)
-    | .ok false => (r', .error .assertion)
-    | .ok true => (r', processErrors m r'.errors)
+  let e3 : List VErr := if foundNone then [] else r.syncErrors
+  let r' := { r with errors := errs0 ++ e1 ++ e2 ++ e3 }
+  (r', processErrors m r'.errors)
 
 /-- `MafRecord.from_line(line, column_names, scheme, line_number, validation_stringency)` -/
 def Record.fromLine (C : Ctx) (line : Text) (columnNames : Option (List Text))
